@@ -22,3 +22,11 @@ chk("C07", "types", "exploration", "property-based testing + exhaustive small-sc
 chk("C08", "types", "exploration", "property-based round-trip testing (encode/decode, CallTraceRow, SQLite file) with a structural-equality oracle; metamorphic stability of the encoding across rebuilds, histories and PYTHONHASHSEED",
     "decode(encode(T)) structurally equals T for inferred / yield-accumulated / rewritten / grammar types; re-encoding and independent rebuilds give the same text up to union order; flat class unions encode identically in a fresh interpreter; call traces of 22 fixture functions of every kind round-trip through CallTraceRow and a SQLite file with absent kept distinct from NoneType.",
     "unions are compared as sets; Tuple[T, ...] is excluded (DESIGN 3.5)", "DESIGN.md 4/C08")
+ENGINES.append({"name": "tracer", "path": "mtverif/synth.py, mtverif/tracerun.py, fixtures/mtv_support.py", "serves_properties": ["C02", "C03", "C17", "C18"],
+                "kind_free_text": "Hypothesis-drawn program specs rendered to modules with inline recorded call sites, executed by a drawn driver schedule under the real sys.setprofile tracer; ground truth from an untraced recorder"})
+chk("C02", "tracer", "exploration", "property-based testing (Hypothesis) over synthesised programs and driver schedules; oracle = ground truth recorded at call sites with innermost-window attribution, plus gc reachability walk for residue",
+    "Programs of every function/parameter/flavour/exit kind run under the real tracer with interleaved generators and really-suspending coroutines: each finished call logged exactly once (MUST kinds), to the right function, with the types bound at call start, return absent iff exception, yields = union of yielded values, none for awaits, in completion order, and no CallTrace/frame left reachable from the tracer.",
+    "single thread; MAY-resolvable kinds (lambda, settable property, static method of nested class) may go unlogged; two listed findings (generator ended by exception at its yield point)", "DESIGN.md 4/C02")
+chk("C18", "tracer", "exploration", "property-based testing over programs x sampling rates x RNG seeds with the C02 ground-truth oracle per logged trace; exact binomial acceptance test for the traced fraction",
+    "With sample_rate None/1 the full C02 oracle; otherwise every logged trace is faithful to a real call, at most one per call, unsampled calls leave no residue; the traced fraction of 40k (quick) / 200k (thorough) plain calls lies in an exact binomial interval for p=1/N.",
+    "global `random` seeded from a drawn integer; the mid-life generator trace is a listed finding with a structural matcher", "DESIGN.md 4/C18")
